@@ -37,9 +37,12 @@ BASES = {
                                 parent_src="@spec_class\nclass Parent:\n    item: int\n    items: List[int]\n"),
     "collision_two_levels": base([("x", "none")], inh=[("item", "none"), ("items", "seq")],
                                  parent_src="@spec_class\nclass GrandParent:\n    items: List[int]\n\n@spec_class\nclass Parent(GrandParent):\n    item: int\n"),
+    "inherits": base([("y", "none")], body=["y"], inh=[("x", "none"), ("zs", "seq")],
+                     parent_src="@spec_class\nclass Parent:\n    x: int = 0\n    zs: List[int] = []\n"),
     "private_in_attrs": base([("x", "none")], body=["x"], o=opts(attrs=["_secret"])),
 }
-KINDS = ["function", "staticmethod", "property", "value"]
+KINDS = ["function", "staticmethod", "property", "value", "none", "zero", "empty"]     # the last three: plain values that are falsy
+FALSY = {"none": "None", "zero": "0", "empty": "()"}
 
 
 def description(name):
@@ -79,10 +82,14 @@ def class_source(name, extra, kind):
                 body.append("def __eq__(self, other):\n    return self is other\n__hash__ = object.__hash__")
             else:
                 body.append(f"def {extra}(self, *a, **k):\n    return 'user'")
+        elif kind == "super_function":          # the override delegates to the parent's helper of the same name
+            body.append(f"def {extra}(self, *a, **k):\n    return super().{extra}(*a, **k)")
         elif kind == "staticmethod":
             body.append(f"{extra} = staticmethod(lambda *a, **k: 'user')")
         elif kind == "property":
             body.append(f"{extra} = property(lambda self: 'user')")
+        elif kind in FALSY:
+            body.append(f"{extra} = {FALSY[kind]}")
         else:
             body.append(f"{extra} = 12345")
     if not body:
@@ -147,7 +154,9 @@ def run_case(case):
             inst = cls()
             for n in sorted(set(dir(cls)) - set(dir(object))):
                 try:
-                    getattr(inst, n)
+                    m = getattr(inst, n)
+                    if kind == "super_function" and n == extra:
+                        m()          # reaches the parent's helper through super() (the call itself may well fail for want of arguments)
                 except Exception:  # noqa: BLE001
                     pass
         except Exception:  # noqa: BLE001
